@@ -2,7 +2,9 @@
 Driver side of engine `stream` (C10).  The input is generated on the fly by the harness and never
 materialised, so the model side only predicts the observation from the case parameters (`n`
 well-formed clauses ⇒ `n` items and a clean end — an instance of C07's `cnf_parse_render`); what
-this engine contributes is the measured peak heap on the implementation side.
+this engine contributes is the measured peak heap on the implementation side.  `fmt=aag|aig`: an
+AIGER file with `n` section entries read through the streaming section API (the same prediction:
+an instance of C03's round trip for the file the harness renders).
 -/
 import Driver.Util
 
@@ -11,7 +13,9 @@ namespace Driver
 def runStreamCase (line : String) : String × String :=
   let fs := fields line
   let n := fieldNat fs "n"
+  -- `lg=` is `big=` under a name that cannot be taken for the harness-wide flag `big=1`
+  let big := if field fs "lg" == "" then fieldNat fs "big" else fieldNat fs "lg"
   (s!"items={n}|END",
-   s!"n={n} chunk={fieldNat fs "chunk"} read={fieldNat fs "read"} big={fieldNat fs "big"}")
+   s!"fmt={field fs "fmt"} n={n} chunk={fieldNat fs "chunk"} read={fieldNat fs "read"} big={big}")
 
 end Driver
